@@ -7,9 +7,11 @@ from harness import core, gen, common
 ID = 'C13'
 LEAN_TARGETS = ['Props.C13']
 TIE_A = ['g3c_rotor_between_planes_eq']
-OBLIGATIONS = ['C13.intertwining', 'C13.rotor_carries', 'C13.translation_fixes_einf']
-PARTIAL = ['existence and choice of the normalising root (Dorst-Valkenburg), the special-position branches, motor_between_rounds, rotor roots, logarithm/exponential pairs '
-           'and interpolation have no Lean theorem: decided by evaluation on the implementation over objects built from integer points']
+OBLIGATIONS = ['C13.intertwining', 'C13.rotor_carries', 'C13.translation_fixes_einf', 'C13.rotor_between_objects_positive_root',
+               'C13.rotor_between_objects_scalar_sigma', 'C13.positive_root_squares', 'C13.square_root_of_rotor']
+PARTIAL = ['the polar-decomposition normalisation is proved with the square roots as parameters constrained by their defining equations (positive-root branch, scalar sigma, '
+           'positive_root squared, square root of a rotor); that sigma = C~C has the form s + q with q*q scalar for the objects of g3c, the floating-point choice between the '
+           'branches, motor_between_rounds, logarithm/exponential pairs and interpolation have no Lean theorem: decided by evaluation on the implementation']
 RULE = ("pairs of normalised point pairs, lines, circles, planes and spheres built from integer points (coordinates in [-4, 4]) in general position and in the special "
         "positions equal, translated, rotated, dilated, parallel, concentric, intersecting, disjoint, nested (antipodal X2 = -X1 excluded); TR / TRS rotors with translation "
         "<= 4 and scale in [1/2, 2]. Non-trivial = X1 != X2; distinct = distinct (kind, position, points)")
